@@ -199,7 +199,7 @@ func VH_C04_CommitOrder() {
 // Parallel commit equals sequential commit, has no data race and no deadlock,
 // with and without encode errors.
 //
-//vh:prop C16
+//vh:prop C16 C04
 //vh:stubs codec
 //vh:param k 2 3
 //vh:param workers 2 2
@@ -209,7 +209,9 @@ func VH_C16_ParallelCommit() {
 	st := vhNewPersistent(base)
 	ds := vhDirtyState(st, base, k, false, true)
 	relaxed := vhChoose("relaxed", 2) == 1
-	w := vhParam("workers", 2)
+	// any number of workers from 1 to the bound: the outcome (registers, write
+	// set, error) is the same for all of them, also when a slab fails to encode
+	w := 1 + vhChoose("nworkers", vhParam("workers", 2))
 	anyEncFail := false
 	for _, d := range ds {
 		if !d.del {
